@@ -147,6 +147,24 @@ Theorem C12_crash_feed : forall fl thr order k d,
 Proof. exact crash_feed. Qed.
 Print Assumptions C12_crash_feed.
 
+(** Crash points are the boundaries between flush TRANSACTIONS (a kill at compact.beforeFlush #k leaves k-1, a kill at
+    compact.afterFlush #k leaves k committed flushes; k ranges over all naturals here): the state left behind is a valid
+    compaction-prefix state, in particular every latest pointer names an existing version. *)
+Theorem C12_crash_no_dangling : forall fl thr order k d,
+  f_lenkeys fl = false -> cinv d -> NoDup order ->
+  forall id, dangling (compact_crash cf_fixed fl thr order k d) id = false.
+Proof. exact crash_no_dangling. Qed.
+Print Assumptions C12_crash_no_dangling.
+
+(** This needs a flush to be ONE transaction: were the deletions committed and the pointer re-points written in a later
+    transaction, a kill in between would leave a dangling latest pointer (history a, a; the last version is the duplicate). *)
+Theorem C12_split_flush_dangles :
+  let g := all_instrs cf_fixed identical d_aa [1] in
+  dangling (apply_flush_deletes_only d_aa g) 1 = true /\ dangling (apply_flush cf_fixed d_aa g) 1 = false
+  /\ dangling d_aa 1 = false.
+Proof. vm_compute. repeat split; reflexivity. Qed.
+Print Assumptions C12_split_flush_dangles.
+
 (** ** reader level, in states whose sequence numbers may have gaps *)
 
 (** The latest-only feed read from the start and the unpaged listing are both "one entry per entity that has a
@@ -198,22 +216,22 @@ Print Assumptions C12_deq_observables.
     observations (no failing read; latest-only feed as a set, listing, all lookups current and point in time and
     relations unchanged; full feed = previous one minus the versions identical to their immediate predecessor, resp.
     same de-duplicated feed after a kill). *)
-Theorem C12_agree_implies_spec : forall st ds thr crash order o_fl o_cr o_rn before after,
+Theorem C12_agree_implies_spec : forall st ds thr crash aft order o_fl o_cr o_rn before after,
   let d := get_ds st ds in
   cinv d -> seqs_nonneg d -> keys_sorted st -> NoDup order ->
   (forall id, assoc id (d_latest d) <> None -> In id order) ->
   map gkey (ro_gets after) = map gkey (ro_gets before) ->
-  snd (fst (agree_op v_fixed false st (CCompact ds thr crash None order o_fl o_cr false o_rn before after))) = true ->
-  spec_op_ok (CCompact ds thr crash None order o_fl o_cr false o_rn before after) = true.
+  snd (fst (agree_op v_fixed false st (CCompact ds thr crash aft None order o_fl o_cr false o_rn before after))) = true ->
+  spec_op_ok (CCompact ds thr crash aft None order o_fl o_cr false o_rn before after) = true.
 Proof. exact agree_compact_spec. Qed.
 Print Assumptions C12_agree_implies_spec.
 
 (** the earlier, weaker statement (feed clause of a complete run) is kept *)
-Theorem C12_agree_implies_spec_partial : forall st ds thr order o_fl o_rn before after,
+Theorem C12_agree_implies_spec_partial : forall st ds thr aft order o_fl o_rn before after,
   let d := get_ds st ds in
   cinv d -> Forall (fun e => 0 <= en_seq e) (d_entries d) -> NoDup order ->
   (forall id, assoc id (d_latest d) <> None -> In id order) ->
-  snd (fst (agree_op v_fixed false st (CCompact ds thr 0 None order o_fl false false o_rn before after))) = true ->
+  snd (fst (agree_op v_fixed false st (CCompact ds thr 0 aft None order o_fl false false o_rn before after))) = true ->
   oents_eqb (ro_full after) (spec_compact (ro_full before)) = true.
 Proof. exact agree_compact_feed. Qed.
 Print Assumptions C12_agree_implies_spec_partial.
@@ -238,7 +256,7 @@ Example C12_ex_removes :
 Proof. vm_compute. repeat split; reflexivity. Qed.
 
 (** the additional hypotheses of the reader-level theorems hold in that state, and the evaluator link is not vacuous:
-    the repaired model predicts its own reads around a compaction killed at the second flush *)
+    the repaired model predicts its own reads around a compaction killed right after its first flush transaction *)
 Example C12_ex_reader_hyps : seqs_nonneg d_nnn /\ keys_sorted st_nnn.
 Proof.
   split.
@@ -252,8 +270,8 @@ Example C12_ex_agree :
                           g_del := match fst r with [] => snd r | _ => false end |}) [1; 2; 3] in
   let robs_of st := {| ro_full := m_full (get_ds st 1); ro_latest := m_latest (get_ds st 1); ro_listing := m_listing (get_ds st 1);
                        ro_gets := gets st; ro_rels := []; ro_bad := false |} in
-  let st' := cr_store (compact_store v_fixed st_nnn 1 1 2 None [1; 2]) in
-  snd (fst (agree_op v_fixed false st_nnn (CCompact 1 1 2 None [1; 2] 2 true false 0 (robs_of st_nnn) (robs_of st')))) = true
+  let st' := cr_store (compact_store v_fixed st_nnn 1 1 1 true None [1; 2]) in
+  snd (fst (agree_op v_fixed false st_nnn (CCompact 1 1 1 true None [1; 2] 1 true false 0 (robs_of st_nnn) (robs_of st')))) = true
   /\ length (ro_full (robs_of st')) = 4%nat.
 Proof. vm_compute. split; reflexivity. Qed.
 
